@@ -61,6 +61,13 @@ func Upgrade(ctx context.Context, c clientset.Interface, asc asclientset.Interfa
 		for key := range sts.Spec.Selector.MatchLabels {
 			delete(revision.Labels, key)
 		}
+		// A selector may also (or only) select through match expressions:
+		// removing the key of an In/Exists requirement stops it from matching.
+		for _, req := range sts.Spec.Selector.MatchExpressions {
+			if req.Operator == metav1.LabelSelectorOpIn || req.Operator == metav1.LabelSelectorOpExists {
+				delete(revision.Labels, req.Key)
+			}
+		}
 		revision.Labels[UpgradeToAdvancedStatefulSetAnn] = sts.Name
 		_, err = c.AppsV1().ControllerRevisions(revision.Namespace).Update(ctx, &revision, metav1.UpdateOptions{})
 		if err != nil {
